@@ -74,6 +74,51 @@ moving outwards by `s' - s` costs exactly `(s' - s) / D` -/
 def EikonalOnRays (t : E → ℝ) (D : ℝ) (c : E) : Prop :=
   ∀ u : E, ‖u‖ = 1 → ∀ s s' : ℝ, 0 ≤ s → 0 ≤ s' → t (c + s' • u) - t (c + s • u) = (s' - s) / D
 
+/-! ### documented parameter restrictions (C20 catalogue for the four classes)
+
+Quoted from the `parameters` help strings, the class / module docstrings and the error
+messages of the constructors. -/
+
+/-- Kenamond 1: "geometry: 2=two-dimensional, 3=three-dimensional"; "Detonation velocity must be
+> 0"; "Detonator location and geometry dimensions must be compatible" (`n` = length of `x_d`). -/
+def K1Documented (geometry D : ℝ) (n : ℕ) : Prop :=
+  (geometry = 2 ∨ geometry = 3) ∧ 0 < D ∧ geometry = n
+
+/-- Kenamond 2: geometry 2 or 3; "Inner HE radius must be > 0"; both detonation velocities > 0;
+"The detonation velocity of the inner HE region is higher than the detonation velocity of the
+outer HE region: D₁ > D₂" (help string "D2 < D1", error message "D1 must be > D2"); "Only
+detonator 3 is located inside the inner HE region"; and for i = 1, 2, 4, 5
+"t_{d_i} ≥ t_{d_3} + R (1/D₁ + 1/D₂) - |a_{d_i}| / D₂". -/
+def K2Documented (geometry R D1 D2 a1 a2 a4 a5 td1 td2 td3 td4 td5 : ℝ) : Prop :=
+  (geometry = 2 ∨ geometry = 3) ∧ 0 < R ∧ 0 < D1 ∧ 0 < D2 ∧ D2 < D1 ∧
+  R < |a1| ∧ R < |a2| ∧ R < |a4| ∧ R < |a5| ∧
+  td3 + R * (1 / D1 + 1 / D2) - |a1| / D2 ≤ td1 ∧ td3 + R * (1 / D1 + 1 / D2) - |a2| / D2 ≤ td2 ∧
+  td3 + R * (1 / D1 + 1 / D2) - |a4| / D2 ≤ td4 ∧ td3 + R * (1 / D1 + 1 / D2) - |a5| / D2 ≤ td5
+
+/-- what the constructor of Kenamond 2 enforces: the same with D₁ ≥ D₂ -/
+def K2Coded (geometry R D1 D2 a1 a2 a4 a5 td1 td2 td3 td4 td5 : ℝ) : Prop :=
+  (geometry = 2 ∨ geometry = 3) ∧ 0 < R ∧ 0 < D1 ∧ 0 < D2 ∧ D2 ≤ D1 ∧
+  R < |a1| ∧ R < |a2| ∧ R < |a4| ∧ R < |a5| ∧
+  td3 + R * (1 / D1 + 1 / D2) - |a1| / D2 ≤ td1 ∧ td3 + R * (1 / D1 + 1 / D2) - |a2| / D2 ≤ td2 ∧
+  td3 + R * (1 / D1 + 1 / D2) - |a4| / D2 ≤ td4 ∧ td3 + R * (1 / D1 + 1 / D2) - |a5| / D2 ≤ td5
+
+/-- Kenamond 3: geometry 2 or 3 and compatible with `x_d`; "Inert obstacle radius must be > 0";
+"Detonation velocity must be > 0"; "The detonator must be located outside of the inert region"
+(`lod` = ‖x_d‖). -/
+def K3Documented (geometry R D lod : ℝ) (n : ℕ) : Prop :=
+  (geometry = 2 ∨ geometry = 3) ∧ geometry = n ∧ 0 < R ∧ 0 < D ∧ R < lod
+
+/-- DSD cylindrical expansion: "geometry: 2=cylindrical"; "All radii are assumed to be positive and
+large enough to avoid the singularity at the origin, i.e. r₁ > α₁/D_CJ₁ and r₂ > α₂/D_CJ₂";
+interface radius > inner radius; "The nominal detonation velocities of both HEs must be positive";
+α_i ≥ 0 (error messages "Alpha for HE1 must be >= 0"; the docstring says "positive"). -/
+def DsdDocumented (geometry r1 r2 D1 D2 α1 α2 : ℝ) : Prop :=
+  geometry = 2 ∧ 0 < r1 ∧ 0 < r2 ∧ r1 < r2 ∧ 0 < D1 ∧ 0 < D2 ∧ 0 ≤ α1 ∧ 0 ≤ α2 ∧ α1 / D1 < r1 ∧ α2 / D2 < r2
+
+/-- what the constructor of `CylindricalExpansion` enforces: no curvature conditions -/
+def DsdCoded (geometry r1 r2 D1 D2 α1 α2 : ℝ) : Prop :=
+  geometry = 2 ∧ 0 < r1 ∧ 0 < r2 ∧ r1 < r2 ∧ 0 < D1 ∧ 0 < D2 ∧ 0 ≤ α1 ∧ 0 ≤ α2
+
 end
 
 end EPV.Spec.Burn
